@@ -95,7 +95,7 @@ func (mc *MemoryChannel) GetOffsetRange(runId string) (int64, int64) {
 func (mc *MemoryChannel) GetRdb(runId string) (int64, int64) {
 	mc.mux.RLock()
 	defer mc.mux.RUnlock()
-	if runId != mc.runId || mc.rdb == nil || !mc.rdb.replayable {
+	if runId != mc.runId || !mc.rdbReplayableLocked() {
 		return -1, -1
 	}
 	return mc.rdb.left, mc.rdb.size
@@ -114,7 +114,7 @@ func (mc *MemoryChannel) NewReader(offset Offset) (ChannelReader, error) {
 
 	aof := mc.indexContinuousAofLocked(offset.Offset)
 	if aof == nil {
-		if mc.rdb != nil && mc.rdb.replayable && offset.Offset <= mc.rdb.left {
+		if mc.rdbReplayableLocked() && offset.Offset <= mc.rdb.left {
 			first := mc.rdb.firstSegment()
 			if first == nil {
 				return nil, os.ErrNotExist
@@ -424,17 +424,30 @@ func (mc *MemoryChannel) rangeLocked() (int64, int64) {
 		return left, right
 	}
 
-	if mc.rdb != nil && mc.rdb.replayable {
+	if mc.rdbReplayableLocked() {
 		return mc.rdb.left, mc.rdb.left
 	}
 	return -1, -1
 }
 
 func (mc *MemoryChannel) inRangeLocked(offset int64) bool {
-	if mc.rdb != nil && mc.rdb.replayable && offset <= mc.rdb.left {
+	if mc.rdbReplayableLocked() && offset <= mc.rdb.left {
 		return true
 	}
 	return mc.indexContinuousAofLocked(offset) != nil
+}
+
+// rdbReplayableLocked : the snapshot is offered only while it is complete and the log that continues it has not
+// been collected (gcLocked removes the oldest log segments before the snapshot : a snapshot whose log starts
+// behind rdb.left can be replayed, but the stream cannot be continued from its offset)
+func (mc *MemoryChannel) rdbReplayableLocked() bool {
+	if mc.rdb == nil || !mc.rdb.replayable {
+		return false
+	}
+	if start := mc.continuousAofStartIndexLocked(); start >= 0 && mc.aofSegs[start].left > mc.rdb.left {
+		return false
+	}
+	return true
 }
 
 func (mc *MemoryChannel) continuousAofRangeLocked() (int64, int64, bool) {
